@@ -622,6 +622,29 @@ func (e *SpecEnv) call(x *ast.CallExpr) Val {
 			if idn, ok := x.Args[0].(*ast.Ident); ok {
 				return Val{T: vc.get(e.cur, vc.ghostVar(idn.Name)), Ty: types.Typ[types.Int]}
 			}
+		case "ext":
+			return e.extCall(x)
+		case "ret":
+			// ret("callee", i): i-th result of the latest call to callee in this activation
+			lit, ok := x.Args[0].(*ast.BasicLit)
+			if !ok || len(x.Args) != 2 {
+				return e.fail("ret(\"callee\", i)")
+			}
+			cn, _ := strconv.Unquote(lit.Value)
+			il, _ := x.Args[1].(*ast.BasicLit)
+			if il == nil {
+				return e.fail("ret: index must be a literal")
+			}
+			idx, _ := strconv.Atoi(il.Value)
+			for _, k := range sortedKeys(vc.lastRet) {
+				if calleeMatch(k, cn) {
+					r := vc.lastRet[k]
+					if idx < len(r) {
+						return r[idx]
+					}
+				}
+			}
+			return e.fail("ret: no call to %s recorded before this point (contract target changed)", cn)
 		case "uf":
 			// uf("name", args...) : uninterpreted Int-valued function of Int/other args
 			return e.ufCall(x)
@@ -882,4 +905,68 @@ func (eng *Engine) specExec(fn *ssa.Function, depth int) bool {
 		}
 	}
 	return true
+}
+
+// extCall: ext("pkg.Func", resultIndex, args...) names the uninterpreted function
+// that models a deterministic stdlib function (same symbol the VC generator uses
+// at the call sites in the code).
+func (e *SpecEnv) extCall(x *ast.CallExpr) Val {
+	vc := e.vc
+	if len(x.Args) < 2 {
+		return e.fail("ext(\"pkg.Func\", resultIndex, args...)")
+	}
+	lit, ok := x.Args[0].(*ast.BasicLit)
+	if !ok {
+		return e.fail("ext: first argument must be a string literal")
+	}
+	name, _ := strconv.Unquote(lit.Value)
+	idxLit, ok := x.Args[1].(*ast.BasicLit)
+	if !ok {
+		return e.fail("ext: second argument must be the result index")
+	}
+	idx, _ := strconv.Atoi(idxLit.Value)
+	dot := strings.LastIndex(name, ".")
+	if dot < 0 {
+		return e.fail("ext: name must be pkg.Func")
+	}
+	var fobj *types.Func
+	for _, p := range vc.eng.allPkgs() {
+		if p.Name() == name[:dot] {
+			if f, ok := p.Scope().Lookup(name[dot+1:]).(*types.Func); ok {
+				fobj = f
+			}
+		}
+	}
+	if fobj == nil {
+		return e.fail("ext: unknown function %s", name)
+	}
+	sig := fobj.Type().(*types.Signature)
+	var sorts, terms []string
+	for _, a := range x.Args[2:] {
+		v := e.materialize(e.eval(a))
+		s := "Int"
+		if v.Ty != nil && !isUntyped(v.Ty) {
+			s = vc.sortOf(v.Ty)
+		} else if v.Ty != nil && v.Ty == types.Typ[types.UntypedString] {
+			s = vc.strSort()
+		}
+		sorts = append(sorts, s)
+		terms = append(terms, v.T)
+	}
+	fname := "ext_" + sanitize(name[:dot]+"_"+name[dot+1:])
+	if sig.Variadic() {
+		fname += fmt.Sprintf("_v%d", len(terms)-(sig.Params().Len()-1))
+	}
+	if sig.Results().Len() > 1 {
+		fname += fmt.Sprintf("_%d", idx)
+	}
+	if idx >= sig.Results().Len() {
+		return e.fail("ext: %s has %d results", name, sig.Results().Len())
+	}
+	rt := sig.Results().At(idx).Type()
+	vc.decl("fun:"+fname, fmt.Sprintf("(declare-fun %s (%s) %s)", fname, strings.Join(sorts, " "), vc.sortOf(rt)))
+	if len(terms) == 0 {
+		return Val{T: fname, Ty: rt}
+	}
+	return Val{T: "(" + fname + " " + strings.Join(terms, " ") + ")", Ty: rt}
 }
